@@ -1521,9 +1521,15 @@ impl Engine for CApi {
         // would mislead both sides alike, so a sample of histories is compared with its own run
         // alone in a fresh process (every zone case: name resolution is where such state would sit)
         if self.mode != Mode::Model {
-            return None;
+            // under ASan a comparison child costs more; what matters there is a child that dies in
+            // another environment (CPU set), the fingerprints are the C17 check's business
+            return Some(48);
         }
         Some(if unit.name.starts_with("sweep:zone") { 1 } else { 16 })
+    }
+
+    fn isolate_compares_fingerprints(&self) -> bool {
+        self.mode == Mode::Model
     }
 
     fn components(&self) -> (Vec<&'static str>, Vec<&'static str>) {
